@@ -201,3 +201,12 @@ def run(res, facts, tier):
     _run_c01_prev_number(res, facts, tier)
     from . import c01_number
     c01_number.run_rule(res, facts, tier)
+
+
+_run_c01_prev_copyns = run
+
+
+def run(res, facts, tier):
+    _run_c01_prev_copyns(res, facts, tier)
+    from . import c01_copyns
+    c01_copyns.run_rule(res, facts, tier)
